@@ -177,6 +177,28 @@ func init() {
 				if err := proto.Unmarshal(raw, &back); err != nil {
 					c.Violate("C19", "wire-unmarshal-fails", what, info)
 				} else {
+					// a conversion does not depend on what was converted before: a different message under the same
+					// vertex hash / transaction hash goes through the mappers first
+					func() {
+						defer func() { recover() }()
+						sib := proto.Clone(&back).(*pb.Vertex)
+						sib.Weight += 3
+						sib.SignerPublicAddress += "x"
+						sib.Signature = append([]byte{9}, sib.Signature...)
+						sib.CreatedAt += 5
+						if sib.Transaction != nil {
+							sib.Transaction.Subject += "y"
+							sib.Transaction.Data = append(sib.Transaction.Data, 1)
+							sib.Transaction.CreatedAt += 7
+							if sib.Transaction.Spice != nil {
+								sib.Transaction.Spice.Currency ^= 1 << 40
+							}
+						}
+						gossip.VerifMapProtoToVertex(sib)
+						if sib.Transaction != nil {
+							transformers.ProtoTrxToTrx(sib.Transaction)
+						}
+					}()
 					wv := gossip.VerifMapProtoToVertex(&back)
 					c.Line("WT %d | %d", uint64(v.CreatedAt.UnixNano()), uint64(wv.CreatedAt.UnixNano()))
 					if !signedEqual(&v, &wv) {
